@@ -4,6 +4,10 @@ from ..hir import walk, strip, pretty, short, calls, pat_binds
 from .. import e1, e4, arms
 from ..e1 import Rat
 from ..extract import Unrecognised
+from .common import top_stmts_of
+
+DEFINING_OPS = {"add_inplace": ["add"], "sub_inplace": ["sub"], "mul_inplace": ["mul"], "div_scalar_inplace": ["div"],
+                "hadamard": ["mul", "mul"]}
 
 LEVEL = "other"
 RULES = {
@@ -120,6 +124,36 @@ def elementwise(ctx, op, nested=()):
         else:
             outs = e4.outcomes(c, ra["arm"]["body"], lambda n: False)
             ctx.check("R15.1", inst, not outs, "unexpected-rank-arm", where, "arm panics", "arm for %s is neither a specified rank nor a rejection" % rank)
+    if op in DEFINING_OPS and trees:
+        # the element-wise IEEE result is ONE rounding of the defining operation: the arm must perform exactly the
+        # defining operations on its operands (fn-level temporaries expanded), e.g. a / s and not a * (1 / s)
+        tenv = {}
+        for s_ in top_stmts_of(fn["body"]):
+            if s_ is m or any(x_ is m for x_ in walk(s_)):
+                break
+            if s_.get("k") == "let" and s_["pat"].get("k") == "bind" and s_.get("init") is not None:
+                tenv[s_["pat"]["name"]] = e1.optree(c, s_["init"], {}, lambda n_: None)
+
+        def expand(t):
+            if isinstance(t, tuple):
+                if len(t) == 2 and t[0] == "var" and t[1] in tenv:
+                    return expand(tenv[t[1]])
+                return tuple(expand(x) for x in t)
+            return t
+
+        def ops_of(t, acc):
+            if isinstance(t, tuple):
+                if t and isinstance(t[0], str) and t[0] in ("add", "sub", "mul", "div", "rem", "neg", "call", "if", "other", "stmt"):
+                    acc.append(t[0])
+                for x in (t[1:] if t and isinstance(t[0], str) else t):
+                    ops_of(x, acc)
+            return acc
+        for rank, t in sorted(trees.items()):
+            got_ops = sorted(ops_of(expand(t), []))
+            ctx.check("R15.5", "%s:%s:defining-operations" % (op, rank), got_ops == sorted(DEFINING_OPS[op]),
+                      "element-computed-by:" + "+".join(got_ops), c.loc(fn, m), "per element exactly: " + "+".join(DEFINING_OPS[op]),
+                      "%s computes each element with the operations %s (temporaries expanded: %s); the IEEE result of the defining operation "
+                      "%s is a single rounding of it" % (op, got_ops, short(str(expand(t)), 120), DEFINING_OPS[op]))
     if op != "mean_inplace" and len(trees) >= 2:
         ref_rank = "Single" if "Single" in trees else sorted(trees)[0]
         for rank, t in sorted(trees.items()):
